@@ -28,6 +28,9 @@ fn main() {
         out_dir: PathBuf::from(cargo_env("OUT_DIR")),
         rustc: cargo_env("RUSTC"),
     };
+    // cfg flag of the verification hooks (src/verif_hooks.rs); declared so that
+    // builds without the flag do not warn about an unexpected cfg name
+    println!("cargo:rustc-check-cfg=cfg(substrate_fixed_verif)");
 }
 
 #[derive(PartialEq)]
